@@ -191,4 +191,87 @@ IniParse(s, txt, asDefaults, order) ==
 
 IdentityOrder(ini) == [k \in 1..Len(ini.secs) |-> k]
 
+---------------------------------------------------------------------------
+(* Writer (ini.go:200-346).  iniopts: subset of {"IncludeDefaults", "CommentDefaults", "IncludeComments"}.   *)
+(* The text is produced as a sequence of lines.                                                               *)
+
+\* the text of one stored atom as convertToString renders it: integers in the option's base, the rest as stored
+RenderAtom(od, a) == IF (IsSignedInt(od.vtype) \/ IsUnsignedInt(od.vtype)) /\ od.base # 10 THEN FormatInBase(a, od.base)
+                     ELSE IF od.vtype = "um" THEN (IF HasPrefix(a, UMPrefix) THEN Drop(a, Len(UMPrefix)) ELSE a)
+                     ELSE a
+
+IsStringish(od) == od.vtype \in {"string"}
+\* does the text need quoting to survive the reader: the pinned code quotes only what is not printable
+NeedsQuote(od, v) ==
+  /\ IsStringish(od)
+  /\ (od.kind # "ptr" \/ ~Defect("IniWriterPtrString"))           \* pinned: a *string is never quoted
+  /\ \/ ~IsPrintS(v)
+     \/ (~Defect("IniWriterQuoting") /\ v # E /\ (v[1] = SPACE \/ v[Len(v)] = SPACE \/ v[1] = QUOTE))
+
+\* the value of the option with every default tag applied to the empty value (Option.valueIsDefault)
+DefaultVal(s, o) ==
+  LET od == s.opts[o]
+      z == [s EXCEPT !.val[o] = ZeroVal(od), !.clearRef[o] = FALSE]
+      r == FoldLeft(LAMBDA acc, dv : ApplySet(acc, o, TRUE, dv, "def"), z, od.defaults)       \* conversion errors are ignored
+  IN r.val[o]
+ValEqDefault(s, o) == LET od == s.opts[o] IN
+                      IF od.kind = "map" THEN SeqToSet(s.val[o]) = SeqToSet(DefaultVal(s, o)) ELSE s.val[o] = DefaultVal(s, o)
+
+WriteOptLine(name, key, hasKey, v, quote, commented) ==
+  LET vq == IF quote THEN QuoteS(v) ELSE v
+      pre == (IF commented THEN <<SEMI, SPACE>> ELSE E) \o name \o <<SPACE, EQ>>
+  IN IF hasKey /\ key # E THEN pre \o <<SPACE>> \o key \o <<COLON>> \o vq
+     ELSE IF vq # E THEN pre \o <<SPACE>> \o vq ELSE pre
+
+\* lines for one option; iniName(o): the key to write (name as read, else ini-name, else field name)
+SortPairs(ps) == LET keys == SortStrs([i \in 1..Len(ps) |-> ps[i][1]]) IN
+                 [i \in 1..Len(keys) |-> ps[FirstIdx(ps, LAMBDA p : p[1] = keys[i])]]
+OptLines(s, o, iniopts, readName, forceQuote) ==
+  LET od == s.opts[o]
+      name == IF readName # E THEN readName ELSE IF od.iniName # E THEN od.iniName ELSE od.field
+      isdef == ValEqDefault(s, o)
+      commented == "IncludeDefaults" \in iniopts /\ "CommentDefaults" \in iniopts /\ isdef
+      v == s.val[o]
+      q(t) == forceQuote \/ NeedsQuote(od, t)
+      body ==
+        IF od.kind \in {"slice", "counter"} THEN
+             IF v = <<>> THEN <<WriteOptLine(name, E, FALSE, E, forceQuote, TRUE)>>
+             ELSE [i \in 1..Len(v) |-> WriteOptLine(name, E, FALSE, RenderAtom(od, v[i]), q(RenderAtom(od, v[i])), commented)]
+        ELSE IF od.kind = "map" THEN
+             IF v = <<>> THEN <<WriteOptLine(name, E, FALSE, E, forceQuote, TRUE)>>
+             ELSE LET sp == SortPairs(v) IN
+                  [i \in 1..Len(sp) |-> WriteOptLine(name, sp[i][1], TRUE, RenderAtom(od, sp[i][2]), q(RenderAtom(od, sp[i][2])), commented)]
+        ELSE IF od.kind \in {"ptr", "ptrflag"} /\ v = <<>> THEN
+             \* a nil pointer has no value: the pinned code writes `name =`, which a non-string pointer cannot read back
+             <<WriteOptLine(name, E, FALSE, E, forceQuote, IF Defect("IniWriterNilPtr") THEN commented ELSE TRUE)>>
+        ELSE <<WriteOptLine(name, E, FALSE, RenderAtom(od, v[1]), q(RenderAtom(od, v[1])), commented)>>
+      desc == IF "IncludeComments" \in iniopts /\ od.desc # E THEN <<(<<SEMI, SPACE>> \o od.desc)>> ELSE <<>>
+  IN desc \o body \o (IF "IncludeComments" \in iniopts THEN <<E>> ELSE <<>>)
+
+Written(s, o, iniopts) == LET od == s.opts[o] IN
+                          ~(od.kind \in {"func0", "func1", "help"}) /\ ~od.hidden /\ ~od.noIni
+                          /\ ("IncludeDefaults" \in iniopts \/ ~ValEqDefault(s, o))
+
+\* section name of group g of command c whose dotted path is ns
+SectionName(d, c, g, ns) == IF d.groups[g].own \/ d.groups[g].desc = E THEN ns
+                            ELSE IF ns = E THEN d.groups[g].desc ELSE ns \o <<DOT>> \o d.groups[g].desc
+
+GroupLines(s, c, g, ns, iniopts, readNames, quotes) ==
+  LET os == SelectSeq([o \in 1..Len(s.d.opts) |-> o], LAMBDA o : s.d.opts[o].group = g /\ Written(s, o, iniopts))
+      body == FoldLeft(LAMBDA acc, o : acc \o OptLines(s, o, iniopts, readNames[o], quotes[o]), <<>>, os)
+  IN IF os = <<>> THEN <<>>
+     ELSE <<(<<LBRACK>> \o SectionName(s.d, c, g, ns) \o <<RBRACK>>)>> \o body \o (IF "IncludeComments" \in iniopts THEN <<>> ELSE <<E>>)
+
+RECURSIVE CommandLines(_, _, _, _, _, _)
+CommandLines(s, c, ns, iniopts, readNames, quotes) ==
+  LET gs == SelectSeq(GroupsOf(s.d, c), LAMBDA g : ~s.d.groups[g].hidden)
+      own == FoldLeft(LAMBDA acc, g : acc \o GroupLines(s, c, g, ns, iniopts, readNames, quotes), <<>>, gs)
+      subs == SelectSeq(SubCmdSeq(s.d, c), LAMBDA k : ~s.d.cmds[k].hidden)
+  IN FoldLeft(LAMBDA acc, k : acc \o CommandLines(s, k, IF ns = E THEN s.d.cmds[k].name ELSE ns \o <<DOT>> \o s.d.cmds[k].name,
+                                                   iniopts, readNames, quotes), own, subs)
+
+NoNames(s) == [o \in 1..Len(s.opts) |-> E]
+NoQuotes(s) == [o \in 1..Len(s.opts) |-> FALSE]
+WriteIni(s, iniopts) == CommandLines(s, 1, E, iniopts, s.readName, s.iniQuote)
+JoinLines(ls) == FoldLeft(LAMBDA acc, ln : acc \o ln \o <<NL>>, E, ls)
 =============================================================================
